@@ -758,13 +758,13 @@ func init() {
 			"nil pointers inside hand-built wire structs are not externally supplied data and are not generated",
 		},
 		Streams: []*vf.Stream{
-			serial("strings", 24000, 600000, c08stringCase),
+			serial("strings", 60000, 600000, c08stringCase),
 			serial("convertbits", 20000, 400000, c08convertBitsCase),
-			serial("blocks-txs", 12000, 400000, c08blockCase),
-			serial("bloom", 20000, 400000, c08bloomCase),
-			serial("merkle", 40000, 800000, c08merkleCase),
-			serial("gcs", 30000, 600000, c08gcsCase),
-			serial("jsonpb", 20000, 400000, c08jsonCase),
+			serial("blocks-txs", 20000, 400000, c08blockCase),
+			serial("bloom", 60000, 400000, c08bloomCase),
+			serial("merkle", 80000, 800000, c08merkleCase),
+			serial("gcs", 90000, 600000, c08gcsCase),
+			serial("jsonpb", 50000, 400000, c08jsonCase),
 			{Name: "time-ladders", Workers: 1, Shards: 4, MaxCaseSec: 120, RlimitAS: as, Run: c08ladderCase, Init: c08childInit,
 				N: func(t vf.Tier) int { return len(c08ladders()) * t.Sz(1, 3) }},
 		},
